@@ -71,7 +71,9 @@ func init() {
 			"soak: behind the mixed cases 3 (thorough 15) cases of the scenario writes|CleanWriteApprovalCaches-bursts|writer-reconnect|verdicts under -race (300/600 iterations per worker). "+
 			"soak/deadlock: seeded random mix of the same operations on 3 connections (plus up to two connections without writer, set up by the operation that uses them) with 6-10 goroutines; "+
 			"deadlock additionally runs %d targeted scenarios x 3 (thorough 25) with 300 (1500) iterations per worker: approve|disconnect|clean, publish|handlers-calling-back|subscribe, RemoveEntity|inbound|disconnect, heartbeat|RemoveEntity|SetData, "+
-			"auto-approved-writes(k=1|2)|entity-removal-notify|CleanRemoteEntityCaches, mute-connections|healthy-connections|heartbeat-ticks. "+
+			"auto-approved-writes(k=1|2)|entity-removal-notify|CleanRemoteEntityCaches, mute-connections|healthy-connections|heartbeat-ticks, "+
+			"last-connection-leaves+first-returns (ALL connections removed and set up again each round, so that DeviceLocal's core-level handler is unsubscribed and subscribed again)|discovery replies still delivered by the connections' readers|two publishers|subscriber|device-map readers, with a core-level observer that delays device-change events before the stack's own core handler (odd rounds: it also subscribes+unsubscribes a handler from inside HandleEvent), "+
+			"discovery replies with optional elements omitted (no deviceAddress in the description | deviceAddress without device | entity and feature addresses without device part) on two extra connections|healthy connections|publications. "+
 			"Completion: every operation under a 20 s watchdog; after the teardown of every world each callback kind (event-handler, approval, response+result) must have returned as often as it was entered, and at the end of every case the goroutine count must be back at its value from the start of the case (heartbeat streams, fired timers, callbacks); expiry of any of these watchdogs hands the case to the parent's goroutine dump (hang@<frame> only for a goroutine parked inside spine-go for a minute; a heartbeat stream idling in its select is not parked, one waiting for a mutex is), otherwise inconclusive. "+
 			"A case is non-trivial if every operation it started returned (no watchdog expiry) ; distinct = distinct pair (duel) / distinct (part, scenario, goroutine count) otherwise.", len(ops), len(pairs), c17Scenarios),
 		Assumptions: []string{
@@ -108,10 +110,10 @@ func init() {
 	})
 }
 
-const c17Scenarios = 6 // targeted scenarios of the deadlock part
+const c17Scenarios = 8 // targeted scenarios of the deadlock part (kinds 0..7)
 
 // c17ChurnScenario is run by the soak part (-race): 3 (thorough 15) cases behind the mixed ones
-const c17ChurnScenario = 6
+const c17ChurnScenario = 100
 
 var c17SoakMixed = [2]int{10, 100} // mixed cases of the soak part (quick, thorough)
 
@@ -547,6 +549,8 @@ func c17Scenario(c *rig.Ctx, base, kind, round, iters int) {
 	var cw *c17W
 	if kind == 4 {
 		cw = c17Build(c, c.Tag(), 0, 3, true) // no approval policy of the soak: this scenario registers its own callbacks
+	} else if kind == 6 {
+		cw = c17Build(c, c.Tag(), 0, 2, true) // two connections only: the scenario takes ALL of them away again and again
 	} else {
 		cw = c17SoakWorld(c)
 	}
@@ -806,6 +810,133 @@ func c17Scenario(c *rig.Ctx, base, kind, round, iters int) {
 				c0 := cw.hbCounter()
 				rig.WaitFor(2*time.Second, func() bool { return cw.hbCounter() > c0 })
 				return "timer.heartbeat-tick"
+			}},
+		}
+	case 6:
+		// The FIRST and the LAST connection: DeviceLocal subscribes its core-level event handler when a connection is set up and
+		// unsubscribes it - under its own mutex - when the last remote device goes. Every other world keeps two or three
+		// connections for its whole life, so that path never runs next to publications. Here a dropper takes ALL connections
+		// away and sets them up again, round after round (the last removal alternately through RemoveRemoteDeviceConnection
+		// and the bare RemoveRemoteDevice), while the connections' readers still deliver discovery replies (whose DeviceChange
+		// event makes DeviceLocal.HandleEvent look the device up under the same mutex, inside Events.Publish), two application
+		// goroutines publish all the time, one (un)subscribes handlers and one reads the device map. A core-level observer
+		// (c17CoreDelay) widens the window before the stack's own core handler by a seeded delay; in odd rounds it also
+		// subscribes/unsubscribes a handler from inside HandleEvent.
+		resub := round%2 == 1
+		name = fmt.Sprintf("last-connection-leaves+first-returns|discovery-replies|publishers|core-handler(delay%s)", map[bool]string{false: "", true: "+resubscribe"}[resub])
+		cd := &c17CoreDelay{cw: cw, resubscribe: resub}
+		cw.mu.Lock()
+		cw.coreH = append(cw.coreH, cd)
+		cw.mu.Unlock()
+		_ = spine.VerifSubscribeCore(cd)
+		ah := &c17Handler{cw: cw}
+		cw.mu.Lock()
+		cw.appH = append(cw.appH, ah)
+		cw.mu.Unlock()
+		_ = spine.Events.Subscribe(ah)
+		var dropperDone atomic.Bool
+		var emptied atomic.Int64
+		until := func(f func(i int) string) func(i int) string {
+			return func(i int) string {
+				if dropperDone.Load() {
+					return "idle"
+				}
+				return f(i)
+			}
+		}
+		ws = []c17Worker{
+			{name: "dropper", steps: iters, step: func(i int) string {
+				first, last := i%2, 1-i%2
+				cw.local.RemoveRemoteDeviceConnection(cw.cn(first).ski)
+				if i%4 < 2 {
+					cw.local.RemoveRemoteDeviceConnection(cw.cn(last).ski)
+				} else {
+					cw.local.RemoveRemoteDevice(cw.cn(last).ski)
+				}
+				if len(cw.local.RemoteDevices()) == 0 {
+					emptied.Add(1)
+				}
+				if i%8 == 7 {
+					time.Sleep(200 * time.Microsecond) // (lets the readers meet an empty device map now and then)
+				}
+				for _, s := range []int{first, last} {
+					cn := cw.cn(s)
+					tap := &rig.Tap{}
+					cw.local.SetupRemoteDevice(cn.ski, tap)
+					if rd := cw.local.RemoteDeviceForSki(cn.ski); !rig.IsNil(rd) {
+						cn.link.Store(&c17Link{rd: rd, tap: tap})
+					}
+				}
+				if i == iters-1 {
+					dropperDone.Store(true)
+				}
+				return "api.RemoveRemoteDeviceConnection(all)+SetupRemoteDevice"
+			}},
+			// the readers of the two connections: they deliver on whatever device object they hold (a connection's reader may
+			// still be inside HandleSpineMesssage when the application is told that the connection is gone)
+			{name: "reader0", steps: 40 * iters, step: until(func(i int) string { cw.announce(0); return "in.discovery.reply" })},
+			{name: "reader1", steps: 40 * iters, step: until(func(i int) string { cw.announce(1); return "in.discovery.reply" })},
+			{name: "publisher0", steps: 400 * iters, step: until(func(i int) string {
+				spine.Events.Publish(api.EventPayload{Ski: cw.cn(0).ski, EventType: api.EventTypeDataChange, ChangeType: api.ElementChangeUpdate, Device: cw.rd(0)})
+				return "api.Events.Publish"
+			})},
+			{name: "publisher1", steps: 400 * iters, step: until(func(i int) string {
+				spine.Events.Publish(api.EventPayload{Ski: cw.cn(1).ski, EventType: api.EventTypeEntityChange, ChangeType: api.ElementChangeUpdate, Device: cw.rd(1)})
+				if i%16 == 0 {
+					runtime.Gosched()
+				}
+				return "api.Events.Publish"
+			})},
+			{name: "subscriber", steps: 400 * iters, step: until(func(i int) string {
+				h := &c17Handler{cw: cw}
+				_ = spine.Events.Subscribe(h)
+				runtime.Gosched()
+				_ = spine.Events.Unsubscribe(h)
+				return "api.Events.Subscribe+Unsubscribe"
+			})},
+			{name: "devices", steps: 400 * iters, step: until(func(i int) string {
+				_ = cw.local.RemoteDevices()
+				_ = cw.local.RemoteDeviceForSki(cw.cn(i % 2).ski)
+				_ = cw.local.RemoteDeviceForAddress(model.AddressDeviceType(cw.cn(i % 2).addr))
+				runtime.Gosched()
+				return "api.RemoteDevices+ForSki+ForAddress"
+			})},
+		}
+		defer func() {
+			c.Count("device_map_emptied", emptied.Load())
+			c.Count("core_delay_windows", cd.windows.Load())
+			c.Count("core_events_seen", cd.n.Load())
+		}()
+	case 7:
+		// Legal but unusual input: peers whose detailed discovery reply omits optional elements (c17W.sparseIn: no
+		// deviceAddress in the device description, a deviceAddress without device element, entity/feature addresses without
+		// device part). Two such peers come, are handled and go next to the ordinary traffic; what is judged is that the
+		// handling returns without a (recovered) panic AND that the stack stays usable: every publication, message handling
+		// and API call of the OTHER workers after it must complete (a lock left behind by one message blocks them all).
+		name = "discovery-replies-with-optional-elements-omitted|healthy-connections|publications"
+		ws = []c17Worker{
+			{name: "sparse-peer0", steps: iters / 4, step: func(i int) string { cw.sparseIn(0, i, i%8 == 7); return "in.discovery.reply(optional-elements-omitted)" }},
+			{name: "sparse-peer1", steps: iters / 4, step: func(i int) string {
+				cw.sparseIn(1, i/2+1, i%4 == 3)
+				return "in.discovery.reply(optional-elements-omitted)"
+			}},
+			{name: "healthy-inbound0", steps: iters, step: func(i int) string {
+				cw.in(0, model.CmdClassifierTypeNotify, cw.pa(0, e1a, 2), cw.mcl.Address(), false, nil, c17MeasCmd(i, i%2 == 0))
+				write(i)
+				return "in.notify.meas"
+			}},
+			{name: "healthy-announce1", steps: iters, step: func(i int) string { cw.announce(1); return "in.discovery.reply" }},
+			{name: "healthy-reconnect2", steps: iters / 8, step: func(i int) string { cw.reconnect(2); return "soak.reconnect" }},
+			{name: "publisher", steps: iters, step: func(i int) string {
+				cw.lc.SetData(model.FunctionTypeLoadControlLimitListData, c17Limits(i))
+				spine.Events.Publish(api.EventPayload{Ski: cw.cn(2).ski, EventType: api.EventTypeDataChange, ChangeType: api.ElementChangeUpdate, Device: cw.rd(2)})
+				return "api.Events.Publish"
+			}},
+			{name: "registries", steps: iters, step: func(i int) string {
+				_ = cw.local.RemoteDevices()
+				_ = cw.local.SubscriptionManager().Subscriptions(cw.rd(i % 3))
+				_ = rig.JS(cw.local.NodeManagement().DataCopy(model.FunctionTypeNodeManagementUseCaseData))
+				return "api.Registries"
 			}},
 		}
 	default:
